@@ -88,8 +88,18 @@ func (p *propC12) Gen(idx int) *Scenario {
 func (p *propC12) genStream(r *Rng, h ftMesg, arch int) *RecStream {
 	g := &streamGen{r: r, o: StreamOpts{FT: h.ft, Arch: arch}}
 	fl := byte(4 + r.Intn(12))
-	g.emitDef(&DefOp{Local: fl, Arch: g.arch(), Global: 0, Fields: [][3]int{{0, 1, 0}}})
-	g.emitData(fl, false, 0, []byte{h.ft})
+	if r.Bool() {
+		// file_id.time_created is a date_time like any other: it is no timestamp
+		// field (253) and must not become the reference of what follows
+		fd := &DefOp{Local: fl, Arch: g.arch(), Global: 0, Fields: [][3]int{{0, 1, 0}, {4, 4, 0x86}}}
+		g.emitDef(fd)
+		tc := make([]byte, 4)
+		putN(tc, fd.be(), uint64(0x10000000+r.U64()%0xE0000000))
+		g.emitData(fl, false, 0, append([]byte{h.ft}, tc...))
+	} else {
+		g.emitDef(&DefOp{Local: fl, Arch: g.arch(), Global: 0, Fields: [][3]int{{0, 1, 0}}})
+		g.emitData(fl, false, 0, []byte{h.ft})
+	}
 	// candidate messages: the target plus other hosted ones and an unknown one
 	cands := []uint16{h.mn, h.mn, h.mn}
 	for _, mn := range hostedMesgNums(h.ft) {
